@@ -41,7 +41,14 @@ pub fn case_strategy(prefix: usize, len: usize, profile: Profile) -> BoxedStrate
         prop::collection::vec(op_strategy(profile), 1..=len),
         prop::bool::weighted(0.25),
     )
-        .prop_map(move |(prefix, ops, flush_every_step)| Case { profile, prefix, ops, flush_every_step })
+        .prop_map(move |(prefix, ops, flush_every_step)| {
+            // half of the cases start from the rich setup (decided by the generated flag's parity
+            // with the prefix length, to keep the tuple small)
+            let rich = (prefix.len() + ops.len()) % 2 == 0;
+            let mut all = if rich { ops::rich_setup(profile) } else { vec![] };
+            all.extend(prefix);
+            Case { profile, prefix: all, ops, flush_every_step }
+        })
         .boxed()
 }
 
